@@ -184,8 +184,15 @@ def build(ch):
     na = Q @ np.array([1.0, 0.2, 0.0]); nb = Q @ np.array([-0.3, 1.0, 0.0])
     d.add_surface(41, 'p', list(na) + [float(na @ c3) + 0.15])
     d.add_surface(42, 'p', list(nb) + [float(nb @ c3) - 0.1])
-    d.add_cell(HCell(31, -41, mat=1, rho='-2.7', u=2)); d.add_cell(HCell(32, 41, mat=2, rho='-7.8', u=2))
-    d.add_cell(HCell(33, -42, mat=3, rho='-1.0', u=3)); d.add_cell(HCell(34, 42, mat=1, rho='-2.7', u=3))
+    # the universes also vary along the prism axis (a displacement of a universe along the axis must be visible)
+    d.add_surface(43, 'p', list(axis) + [float(axis @ c3) + 0.4])
+    d.add_surface(44, 'p', list(axis) + [float(axis @ c3) - 0.3])
+    d.add_cell(HCell(31, -41, mat=1, rho='-2.7', u=2))
+    d.add_cell(HCell(32, ('*', 41, -43), mat=2, rho='-7.8', u=2))
+    d.add_cell(HCell(35, ('*', 41, 43), mat=3, rho='-1.0', u=2))
+    d.add_cell(HCell(33, -42, mat=3, rho='-1.0', u=3))
+    d.add_cell(HCell(34, ('*', 42, 44), mat=1, rho='-2.7', u=3))
+    d.add_cell(HCell(36, ('*', 42, -44), mat=2, rho='-7.8', u=3))
     d.mats = dict(c06.MATS)
     d.finish()
     if d.replica_like:
